@@ -19,6 +19,13 @@ Parts
   no-categories  categorical columns with an EMPTY categories object ("HED": {}) and columns whose cells are all unknown keys:
            alone in the sidecar, next to other columns, referenced in curly braces; such a column selects no entry for any cell,
            so it contributes nothing, a reference to it disappears, and the cell text never appears in the annotation
+  unmapped tables in which NO column is annotated: no sidecar at all / an empty sidecar / a sidecar all of whose annotated columns are
+           absent from the table (with 0-2 curly-brace references in its entries, incl. {HED}) / a sidecar with only ignored
+           (Description / Levels / Units, no HED) columns, present in the table or not / both; no HED column.  By the statement a row's
+           annotation is made of HED-column cells, selected categorical entries and filled value templates only -- here nothing, so
+           every row assembles to the empty annotation, dataframe_a lists no column, and no raw cell text (1.0, 0.5, go, Red,
+           '(Green, Big)') ever shows up.  Then the same tables with exactly ONE mapped column (HED column, a categorical or a
+           value column) placed first / in the middle / last among the unmapped ones: the annotation is that column's contribution.
 """
 import copy
 import io
@@ -230,15 +237,17 @@ def check_case(sidecar, columns, rows, index=None, light=False):
 
     res = []
     add = lambda clause, ok, obs=None, exp=None: res.append((clause, bool(ok), obs, exp))
+    no_sidecar = sidecar is None            # the table is given without a sidecar
+    sidecar = {} if no_sidecar else sidecar
     sc_text = json.dumps(sidecar)
     caller_df = pd.DataFrame([list(r) for r in rows], columns=list(columns), dtype=str, index=index)
     caller_before = caller_df.copy(deep=True)
     try:
-        sc = Sidecar(io.StringIO(sc_text))
+        sc = None if no_sidecar else Sidecar(io.StringIO(sc_text))
         t = TabularInput(caller_df, sidecar=sc)
         before_df = t.dataframe.copy(deep=True)
         before_dtypes = [str(d) for d in t.dataframe.dtypes]
-        before_dict = copy.deepcopy(sc.loaded_dict)
+        before_dict = None if no_sidecar else copy.deepcopy(sc.loaded_dict)
         s1 = t.series_a
         a1 = t.dataframe_a
         s2 = t.combine_dataframe(a1) if light else t.series_a
@@ -280,7 +289,7 @@ def check_case(sidecar, columns, rows, index=None, light=False):
         res = [((L_NUMERIC if cl in (L_ABSENT, L_D3, L_TWICE, L_UNION, L_WELL) else cl), ok, o, e) for cl, ok, o, e in res]
     same = list(s1) == list(s2)
     if same and not light:
-        sc_b = Sidecar(io.StringIO(sc_text))
+        sc_b = None if no_sidecar else Sidecar(io.StringIO(sc_text))
         t_b = TabularInput(caller_before.copy(deep=True), sidecar=sc_b)
         s3 = t_b.series_a
         same = list(s3) == list(s1)
@@ -298,8 +307,9 @@ def check_case(sidecar, columns, rows, index=None, light=False):
     add(L_FR_CALLER, caller_df.equals(caller_before) and [str(d) for d in caller_df.dtypes] ==
         [str(d) for d in caller_before.dtypes] and list(caller_df.index) == list(caller_before.index),
         caller_df.astype(object).values.tolist(), caller_before.astype(object).values.tolist())
-    add(L_FR_SIDECAR, sc.loaded_dict == before_dict and json.dumps(sc.loaded_dict) == sc_text,
-        json.dumps(sc.loaded_dict), sc_text)
+    if not no_sidecar:
+        add(L_FR_SIDECAR, sc.loaded_dict == before_dict and json.dumps(sc.loaded_dict) == sc_text,
+            json.dumps(sc.loaded_dict), sc_text)
     return res
 
 
@@ -403,7 +413,7 @@ RENAMES = [{},
 
 
 def apply_rename(sidecar, rename):
-    if not rename:
+    if not rename or sidecar is None:
         return sidecar
     out = {}
     for name, entry in sidecar.items():
@@ -683,6 +693,16 @@ def run(w: Workload):
            "referenced, both); columns with categories whose cells are all unknown keys; cells (first, second, n/a, '', 7, Red); "
            "per sidecar one stacked DataFrame with the full product of the varied cells, single-row and equal-row tables, one "
            "table with a non-default index", exhaustive=True, sidecars=len(ncjobs))
+    # part unmapped: tables without any annotated column, and with exactly one
+    umjobs = _unmapped_jobs(quick)
+    n = _absorb(w, _par(umjobs), counters)
+    w.part("unmapped", cases=n, bound="tables of 3 and 6 columns none of which is annotated (cells 1.0, 0.5, go, Red, '(Green, Big)', 7, n/a, "
+           "'') x {no sidecar, empty sidecar, 3 sidecars of ignored columns only (present / absent / description holding '{kat}' and "
+           "'#'), the 5-column frame sidecar with all its annotated columns absent from the table x 8 entry shapes with 0-2 references "
+           "(incl. {HED}), the same plus ignored columns present}: one stacked table, every single-row table, an equal-row table, a "
+           "non-default index; and the 6-column table plus exactly one mapped column (HED column / categorical / value column, "
+           "sidecar of that column only or the whole frame) at the first / a middle / the last file position",
+           exhaustive=True, sidecars=len(umjobs))
     w.bounded[-1]["checks_per_clause"] = counters
     w.exhaustive = False
     w.not_covered += ["reading the table from a .tsv/.xlsx file (tables are passed as DataFrames of strings)",
@@ -848,6 +868,76 @@ def _no_category_jobs(quick):
         if quick:
             tables = tables[si % 2::2]
         add(sc, tables, sc[host]["HED"]["a"] if host == "cat" else sc[host]["HED"], rename=si % len(RENAMES))
+    return jobs
+
+
+def _unmapped_jobs(quick):
+    """tables in which NO column is annotated (and tables with exactly one annotated column among many that are not).  The statement
+    lists what an assembled annotation is made of: the HED-column cell, selected categorical entries, filled value templates.  A
+    column the sidecar does not annotate (absent from the sidecar, or present without a HED entry) contributes nothing, whatever
+    its cells hold; with no annotated column at all every row assembles to the empty annotation."""
+    jobs = []
+
+    def add(sc, tables, text, rename=0):
+        k = len(jobs)
+        jobs.append({"kind": "given", "id": 70000 + k, "sidecar": sc, "tables": tables, "rename": rename, "text": text})
+
+    raw = ["1.0", "0.5", "go", "Red", "(Green, Big)", "7", NA, ""]      # what unannotated columns hold: numbers, words, tag look-alikes
+
+    def plain_rows(order, n_rows, shift=0):
+        return [{c: raw[(r * 3 + j + shift) % len(raw)] if c != "onset" else "%d.5" % r for j, c in enumerate(order)} for r in range(n_rows)]
+
+    def tables_of(order, rows):
+        tables = [(order, _as_rows(rows, order), None)]
+        for row in (rows if not quick else rows[::3]):
+            tables.append((order, _as_rows([row], order), None))
+        tables.append((order, _as_rows([rows[1], rows[1]], order), None))
+        tables.append((order, _as_rows(rows[:3], order), [4, 2, 9]))
+        return tables
+
+    small = ["onset", "duration", "resp"]
+    wide = ["onset", "duration", "trial_type", "response_time", "stim_file", "ign"]
+    ignored_only = [
+        {"ign": {"Description": "no annotation here, not even {kat} or #", "Levels": {"x": "an x", "go": "a go"}}},
+        {"duration": {"Description": "how long", "Units": "s"}, "resp": {"Description": "the response", "Levels": {"go": "go", "Red": "red"}},
+         "trial_type": {"LongName": "type of trial", "Levels": {"go": "go trial"}}},
+        {"absent_column": {"Description": "not in the table"}},
+    ]
+    frame_shapes = [("cat", "A", ()), ("val", "A", ()), ("cat", "A,{r}", ("kat",)), ("cat", "({r}),A", ("HED",)), ("val", "A,({r})", ("kat",)),
+                    ("val", "(A,{r},{s})", ("HED", "wal")), ("cat", "{r},{r}", ("kat",)), ("cat", "A,({r},{s})", ("wal", "kat"))]
+    # 1. nothing mapped
+    for oi, order in enumerate((small, wide, list(reversed(wide)))):
+        rows = plain_rows(order, 8, shift=oi)
+        add(None, tables_of(order, rows), "(no sidecar)")
+        add({}, tables_of(order, rows), "(empty sidecar)")
+        for sc in ignored_only:
+            add(sc, tables_of(order, rows), "(ignored columns only)")
+        for si, (host, tpl, targets) in enumerate(frame_shapes):
+            if quick and (si + oi) % 2 and oi:
+                continue
+            sc = make_sidecar(host, tpl, targets, variant=si)
+            text = sc[host]["HED"]["a"] if host == "cat" else sc[host]["HED"]
+            add(sc, tables_of(order, rows), text, rename=(si + oi) % len(RENAMES))
+            if "ign" in order:       # further ignored columns that the table does have
+                sc = dict(sc)
+                del sc["ign"]
+                add(dict(sc, **ignored_only[1]), tables_of(order, rows), text, rename=(si + oi + 1) % len(RENAMES))
+    # 2. exactly one mapped column among the unmapped ones
+    only = {"cat": {"cat": {"HED": {"a": "Purple", "b": "(Blue, Big)"}}}, "val": {"val": {"Description": "a value column", "HED": "Label/#"}},
+            "HED": {}}
+    for mi, mapped in enumerate(("HED", "cat", "val")):
+        for pos in (0, 3, len(wide)):
+            order = wide[:pos] + [mapped] + wide[pos:]
+            rows = plain_rows(order, 8, shift=mi + pos)
+            for r, row in enumerate(rows):
+                row[mapped] = CELLS[mapped][r % len(CELLS[mapped])]
+            add(only[mapped] if mapped != "HED" else None, tables_of(order, rows), "(one mapped column: %s)" % mapped)
+            if mapped == "HED":
+                add(dict(ignored_only[1]), tables_of(order, rows), "(one mapped column: HED, ignored columns)")
+                add({"cat": only["cat"]["cat"]}, tables_of(order, rows), "(one mapped column: HED, sidecar column absent)")
+            else:
+                sc = make_sidecar("cat", "A", (), variant=mi)            # the whole frame, only `mapped` is in the table
+                add(sc, tables_of(order, rows), "(one mapped column: %s, frame sidecar)" % mapped, rename=(mi + pos) % 3)
     return jobs
 
 
